@@ -6,7 +6,10 @@ import asyncio
 from mpf.core.platform import LightsPlatform
 from mpf.core.platform_batch_light_system import PlatformBatchLight, PlatformBatchLightSystem
 
-SEND_LATENCY = 0.1875     # 1.5 ticks of 1/8 s
+SEND_LATENCY = 0.1875     # 1.5 ticks of 1/8 s (2 ticks when the lights fade in hardware: everything stays on the 1/8 s grid)
+MAX_FADE_MS = 0           # what the lights answer to get_max_fade_ms(); > 0: the hardware fades on its own
+BATCH_SIZE = 2            # max_batch_size of the PlatformBatchLightSystem
+FILL = [("f1", 13), ("f2", 15), ("f3", 21)]     # extra single-channel lights with their own commands (vary the dirty sets)
 
 
 class BatchTestLight(PlatformBatchLight):
@@ -18,7 +21,7 @@ class BatchTestLight(PlatformBatchLight):
         self.sends = 0
 
     def get_max_fade_ms(self):
-        return 0
+        return MAX_FADE_MS
 
     # the two calls below only add logging around the real PlatformBatchLight methods
     def set_fade(self, start_brightness, start_time, target_brightness, target_time):
@@ -33,7 +36,7 @@ class BatchTestLight(PlatformBatchLight):
 
     def get_fade_and_brightness(self, current_time):
         res = super().get_fade_and_brightness(current_time)
-        self.platform.log.append(("compute", current_time, self.index, res[0], res[2]))
+        self.platform.log.append(("compute", current_time, self.index, res[0], res[2], res[1], self._current_fade))
         return res
 
     def get_board_name(self):
@@ -62,8 +65,16 @@ class BatchTestPlatform(LightsPlatform):
 
     async def initialize(self):
         self.system = PlatformBatchLightSystem(self.machine.clock, self._send, self.machine.config["mpf"][
-            "default_light_hw_update_hz"], 2)
+            "default_light_hw_update_hz"], BATCH_SIZE)
         platform = self
+        from sortedcontainers import SortedSet
+
+        class LoggedSet(SortedSet):
+            # `dirty_lights.clear()` = the sender takes the dirty set (one round begins)
+            def clear(self):
+                platform.log.append(("take", platform.machine.clock.get_time(), [light.index for light in self]))
+                return super().clear()
+        self.system.dirty_lights = LoggedSet()
 
         class LoggedEvent(asyncio.Event):
             # `dirty_lights_changed.set()` outside `mark_dirty` = one iteration of the scheduler task
@@ -82,7 +93,8 @@ class BatchTestPlatform(LightsPlatform):
 
     async def _send(self, seq):
         self.in_flight += 1
-        self.log.append(("flush", self.machine.clock.get_time(), [(light.index, brightness) for light, brightness, _ in seq]))
+        self.log.append(("flush", self.machine.clock.get_time(), [(light.index, brightness) for light, brightness, _ in seq],
+                         [fade for _, _, fade in seq]))
         await asyncio.sleep(SEND_LATENCY)
         self.in_flight -= 1
         for light, brightness, _fade in seq:
@@ -103,20 +115,130 @@ class BatchTestPlatform(LightsPlatform):
         return light
 
 
-def config(hz, profile):
+def config(case):
+    global MAX_FADE_MS, SEND_LATENCY, BATCH_SIZE
+    hz, profile = case["hz"], case["profile"]
+    MAX_FADE_MS = 125 * case.get("bhwm", 0)
+    SEND_LATENCY = 0.25 if MAX_FADE_MS else 0.1875
+    BATCH_SIZE = case.get("bsize", 2)
     s = "mpf:\n  default_light_hw_update_hz: %d\n  platforms:\n    batchtest: harness.common.c09_batch.BatchTestPlatform\n" % hz
     s += "hardware:\n  platform: virtual\n  lights: batchtest\n"
     if profile:
         s += ("light_settings:\n  default_color_correction_profile: p1\n  color_correction_profiles:\n    p1:\n"
               "      gamma: 2.0\n      whitepoint: [0.9, 0.8, 1.0]\n      linear_slope: 0.75\n      linear_cutoff: 0.1\n")
-    s += "lights:\n  b3: {number: 10, subtype: led}\n  b1: {number: 20, subtype: matrix}\n"
+    on = "%02x%02x%02x" % tuple(case.get("onc", (255, 255, 255)))
+    s += ('lights:\n  b3: {number: 10, subtype: led, default_on_color: "%s"}\n'
+          '  b1: {number: 20, subtype: matrix, default_on_color: "%s"}\n' % (on, on))
+    for name, number in FILL:
+        s += "  %s: {number: %d, subtype: matrix}\n" % (name, number)
     return s, None
 
 
 def attach(run):
-    # a fade ends, the scheduler re-dirties the light, a batch may be in flight (1.5 ticks), then poll sleep + send
-    run.batch_lag = 2 * (2 + run.interval) + 4
+    # a fade ends, the scheduler re-dirties the light, a batch may be in flight (up to 2 ticks), then poll sleep + send
+    # (a round = one callback of SEND_LATENCY per list; a command that just missed a round waits for that round, the poll
+    # sleep and its own round)
+    import math
+    lists = sum(math.ceil(n / BATCH_SIZE) for n in (4, 1, 2))       # channels 10-13, 15, 20-21
+    run.batch_lag = int(math.ceil(2 * lists * SEND_LATENCY / 0.125)) + 2 * run.interval + 4
     run.batch_platform = run.vm.machine.hardware_platforms["batchtest"]
+
+
+def fill_ops(run, n):
+    """the extra lights' own commands that follow main op number n"""
+    from mpf.core.rgb_color import RGBColor
+    for at, which, c, fade in run.case.get("fill", []):
+        if at == n:
+            run.vm.machine.lights[FILL[which][0]].color(RGBColor(c), fade_ms=fade * 125, key="f")
+            run.fill_busy = max(getattr(run, "fill_busy", -1), run.tick() + fade)
+
+
+def _line(fade, at):
+    sb, st, tb, tt = fade
+    return min(1.0, max(0.0, sb + (tb - sb) * (at - st) / (tt - st)))
+
+
+def oracle(run):
+    """On the platform's log, for every channel of the batched platform (the extra lights too).
+    PROPERTY (fails): at rest the platform has received, for every channel, the corrected logical colour of its light (the
+    main lights are checked per sample by Run.oracle_sample; here the extra lights).
+    OBSERVATIONS (transient hardware output, outside what C09 states; counted, never failed): per round (one taken dirty
+    set) every dirty channel is handed to the update callback exactly once, with the brightness computed for it in this
+    round, in lists of successive channels no longer than the batch size; a channel is left out only when the last thing
+    transmitted to it was already that brightness; every (brightness, fade) pair lies on the channel's logical fade and
+    never exceeds the hardware's maximum fade (not so on the code as it is - D31: the cached target is answered with
+    fade 0 while the hardware fade is running)."""
+    p = run.batch_platform
+    M = MAX_FADE_MS
+    tol = int(1 / p.system.update_hz * 1000)
+    last_sent = {}          # index -> brightness last handed to the callback
+    rounds = []             # [taken, {index: (b, fade_ms, done)}, [flush lists]]
+
+    def close(rnd):
+        taken, comp, lists, before = rnd
+        sent = [i for lst in lists for i, _ in lst]
+        if len(sent) != len(set(sent)):
+            run.observe("batch_channel_sent_twice_in_one_round")
+        for i in taken:
+            if i in comp and i not in sent:
+                b, _, done = comp[i]
+                if not done or before.get(i) is None or abs(before[i] - b) > 1e-9:
+                    run.observe("batch_dirty_channel_not_sent")
+        for i in sent:
+            if i not in taken:
+                run.observe("batch_clean_channel_sent")
+        run.observe("batch_rounds_checked")
+
+    for ev in p.log:
+        kind = ev[0]
+        if kind == "take":
+            if rounds:
+                close(rounds[-1])
+            rounds.append([list(ev[2]), {}, [], dict(last_sent)])
+        elif kind == "compute":
+            _, ct, i, b, done, fade_ms, fade = ev
+            if rounds:
+                rounds[-1][1][i] = (b, fade_ms, done)
+            sb, st, tb, tt = fade
+            off = False
+            if not (0 <= fade_ms <= max(M, 0)):
+                off = True
+            elif tt < 0 or (tt - ct) * 1000.0 <= M + 1e-6:
+                off = not done or abs(b - tb) > 1e-9 or (tt >= 0 and abs(fade_ms - max(0.0, (tt - ct) * 1000.0)) > 1.0)
+            else:
+                off = done or fade_ms != M or abs(b - _line(fade, ct + M / 1000.0)) > 1e-9
+            run.observe("batch_hw_fade_command_off_the_logical_fade" if off else "batch_hw_fade_command_on_the_logical_fade")
+        elif kind == "flush":
+            lst, fades = ev[2], ev[3]
+            if rounds:
+                rounds[-1][2].append(lst)
+                comp = rounds[-1][1]
+                for (i, b), f in zip(lst, fades):
+                    if i not in comp or abs(comp[i][0] - b) > 1e-9:
+                        run.observe("batch_channel_sent_with_wrong_brightness")
+                    elif not abs(comp[i][1] - f) < max(tol, 1):
+                        run.observe("batch_fade_differs_by_tolerance_or_more")
+            idx = [i for i, _ in lst]
+            if not idx or len(idx) > BATCH_SIZE or any(b != a + 1 for a, b in zip(idx, idx[1:])):
+                run.observe("batch_list_not_sequential_or_too_long")
+            for i, b in lst:
+                last_sent[i] = b
+    if rounds and not (p.in_flight or p.system.dirty_lights):
+        close(rounds[-1])
+    # at rest: the extra lights' channels carry their lights' corrected logical colour
+    t = run.tick()
+    rest_from = max(run.busy_until, run.last_op_t, getattr(run, "fill_busy", -1)) + run.batch_lag
+    if t >= rest_from:
+        for name, number in FILL:
+            light = run.vm.machine.lights[name]
+            col = tuple(light.get_color())
+            want = min(run.corrected(light, col)) / 255
+            hw = p.lights[number].sent
+            if (hw if hw is not None else 0.0) != want and abs((hw or 0.0) - want) > 1e-9:
+                run.fail.append(("quiescent-hw-differs-batch", {"light": name, "channel": number, "hw": hw, "want": want,
+                                                                "logical": col, "t": t}))
+                break
+    return len(rounds)
 
 
 UNIT = 1.0 / 16
@@ -133,7 +255,9 @@ def model_check(ctx, model, run, case):
     """Feed the platform's log (marks, scheduler iterations, computations, callback starts/ends - in the order in which
     they really happened) to the batch model; compare every brightness, every transmitted list and the final state."""
     p = run.batch_platform
-    if model.ask("B reset") != "ok":
+    interval = {8: 1, 4: 2, 2: 4}[case["hz"]]
+    # hardware max fade and fade tolerance in model units (1/16 s), batch size
+    if model.ask("B reset %d %d %d" % (2 * case.get("bhwm", 0), case.get("bsize", 2), 2 * interval)) != "ok":
         raise ValueError("batch model reset failed")
     now = None
     queued = 0      # lights computed and not skipped since the last callback start
@@ -157,18 +281,24 @@ def model_check(ctx, model, run, case):
         elif kind == "schedfire":
             if not ctx.compare(what, "ok", model.ask("B schedfire")):
                 return
+        elif kind == "take":
+            # the previous round is over: the lists handed to the callback must be the grouping function's
+            if not ctx.compare(dict(what, what="grouping of the previous round"), "ok", model.ask("B roundok")):
+                return
         elif kind == "compute":
-            _, _, l, b, done = ev
+            _, _, l, b, done, fade_ms, _ = ev
             ans = model.ask("B compute %d" % l)
             ok = False
             if ans == "skip":
                 ok = bool(done)
             elif ans.startswith("q "):
                 queued += 1
-                frac, d = ans.split()[1:]
+                frac, d, fd = ans.split()[1:]
                 num, den = frac.split("/")
-                ok = int(den) > 0 and abs(int(num) / int(den) - b) < 1e-9 and (d == "1") == bool(done)
-            if not ctx.compare(dict(what, light=l), "computed" if ok else ["computed", b, done], "computed" if ok else ans):
+                ok = (int(den) > 0 and abs(int(num) / int(den) - b) < 1e-9 and (d == "1") == bool(done)
+                      and abs(int(fd) * 62.5 - fade_ms) < 1e-9)
+            if not ctx.compare(dict(what, light=l), "computed" if ok else ["computed", b, done, fade_ms],
+                               "computed" if ok else ans):
                 return
         elif kind == "flush":
             # the light computed last may not have fitted into this list (batch size / fade tolerance)
@@ -177,8 +307,8 @@ def model_check(ctx, model, run, case):
             queued = 1 if keep else 0
             ok = ans.startswith("f")
             if ok:
-                items = ans.split()[1:]
-                ok = len(items) == len(ev[2])
+                items = ans.split()[2:]
+                ok = len(items) == len(ev[2]) and all(abs(int(ans.split()[1]) * 62.5 - f) < 1e-9 for f in ev[3])
                 for it, (l, b) in zip(items, ev[2]):
                     ll, frac = it.split(":")
                     num, den = frac.split("/")
@@ -189,7 +319,10 @@ def model_check(ctx, model, run, case):
         elif kind == "delivered":
             if not ctx.compare(what, "ok", model.ask("B delivered")):
                 return
-    ans = model.ask("B state 21")
+    if not (p.in_flight or p.system.dirty_lights):
+        if not ctx.compare(dict(case, backend="batch", what="grouping of the last round"), "ok", model.ask("B roundok")):
+            return
+    ans = model.ask("B state 22")
     hw = ans.split("| h")[1].split()
     ok = True
     for idx, light in p.lights.items():
